@@ -137,6 +137,21 @@ claims = {
   ref="§6 C19"),
 }
 
+# bounded corpus oracles (govc/replay_corpus_test.go.tmpl): run on every check of these properties, never counted as proved
+corpus = {
+ "C01": "no panic on every corpus document and every prefix of the documents up to 800 bytes (thorough: 6000 bytes plus every single-byte deletion and 13 substitutions per byte, about 2 M builds); it found D26 (a panic of the dependency's enum scanner that the assumed contract excluded), repaired",
+ "C05": "the statement of C05 evaluated literally on the serialised catalog of every accepted corpus document; it found D27 (MACRO in front of / instead of JSIGHT, repaired) and D28 (a document without any directive has \"jsight\": \"\": open known finding, an obligation of its own)",
+ "C06": "every corpus document built twice in one process: same bytes or same error, source bytes unwritten",
+ "C07": "every error of the rejected corpus documents re-derived from its (file, index) with the dependency's line arithmetic: line, column and quote",
+ "C08": "blank lines, '#' comments and '###' block comments inserted between the top-level blocks of the accepted corpus documents: same catalog bytes",
+ "C09": "1-3 consecutive top-level blocks of an accepted corpus document moved into an INCLUDEd file (about 1100 splits): same catalog bytes",
+ "C10": "every PASTE replaced textually by the re-indented body of its MACRO, MACRO blocks deleted: same catalog bytes; undefined and pasted cyclic macros are errors",
+ "C19": "every (accepted corpus document, directive kind) pair, about 20 000: banning a kind that occurs gives the not-allowed error on an occurrence, banning one that does not occur gives the same catalog bytes",
+}
+for k, v in corpus.items():
+    claims[k]["text"] += (" Every run also executes a BOUNDED corpus oracle on the real code (built-in documents plus about 1100 documents of /repo/testdata, go test -overlay, "
+                          "reported under bounded_checks_not_counted_as_proved and never counted as proved): " + v + ".")
+
 not_applicable = {
  "C02": "model round-trip over all renderings: needs a grammar of documents and an induction over them; function-level ingredients are claimed under C03/C05/C11/C12",
  "C15": "relational claim over permutations of a whole document; the order-insensitive part lives in jsight-schema-core",
